@@ -174,3 +174,46 @@ Proof.
   cbn [msites]. rewrite msites_cat. unfold msites_list. rewrite flat_map_concat_map, map_map, <- flat_map_concat_map.
   f_equal.
 Qed.
+
+(* the statement generated for ONE field of a wildcard struct pattern `_ { .. }` (Expand.expand, case PStruct None) *)
+Definition wfield_stmt (j : bool) (e : vexpr) (fp : fop * pat) : stmt :=
+  let '(ops, fpat) := fp in
+  match root_field_name ops with
+  | None => SPanic "root_field_name"
+  | Some fname =>
+      if field_name_index_ok fname then
+        let base := VField e fname in
+        with_tail ops base (VRef base) (expand j fpat)
+      else SPanic "syn::Index::from: index does not fit in u32"
+  end.
+
+(* a wildcard struct pattern: field after field in written order (each field's statement starts from the asserted expression itself -
+   the recorded finding C08-wildcard-struct-multi-eval - so its methods, if any, come first in every field's share) *)
+Theorem wildcard_struct_fields_evaluated_in_written_order : forall j id rest fields e en tr,
+  let s := expand j (PStruct id None rest fields) e in
+  set_free s = true -> exec s en = Some ([], tr) ->
+  mlist tr = flat_map (fun fp => msites (wfield_stmt j e fp)) fields.
+Proof.
+  intros j id rest fields e en tr s Hs He.
+  rewrite (exec_methods_in_statement_order s Hs en tr He).
+  subst s. cbn [expand msites]. rewrite msites_cat. unfold msites_list.
+  rewrite flat_map_concat_map, map_map, <- flat_map_concat_map. reflexivity.
+Qed.
+
+(* the statement generated for ONE entry of a map pattern *)
+Definition entry_stmt (j : bool) (id : N) (e : vexpr) (kv : uexpr * pat) : stmt :=
+  let '(k, vp) := kv in
+  let sp := uspan j k in
+  SMapGet sp e k (expand j vp (VBind NMapValue)) (mk_push sp id AMissingKey (EKeyPresent (u_text k))).
+
+(* an open map pattern `#{ k1: p1, k2: p2, .. }`: entry after entry in written order *)
+Theorem open_map_entries_evaluated_in_written_order : forall j id sp entries e en tr,
+  let s := expand j (PMap id sp true entries) e in
+  set_free s = true -> exec s en = Some ([], tr) ->
+  mlist tr = flat_map (fun kv => msites (entry_stmt j id e kv)) entries.
+Proof.
+  intros j id sp entries e en tr s Hs He.
+  rewrite (exec_methods_in_statement_order s Hs en tr He).
+  subst s. cbn [expand msites app]. rewrite msites_cat. unfold msites_list.
+  rewrite flat_map_concat_map, map_map, <- flat_map_concat_map. reflexivity.
+Qed.
